@@ -281,20 +281,4 @@ def Graph.quietL : List Graph → Bool
   | c :: cs => Graph.quiet c && Graph.quietL cs
 end
 
-/-! The registration walk raises before any *sibling* subtree has completed: at
-the node itself (`iter_observables` / `iter_objects` raise), or inside the walk of
-the FIRST child graph on the FIRST object, recursively.  (Failures after a
-completed sibling are not rolled back by the code — finding F4.) -/
-mutual
-def firstFail (h : Heap) : Graph → W → Bool
-  | .node ob cs, x => !isOk (observables h ob x) || firstFailCs h ob x cs
-def firstFailCs (h : Heap) (ob : Observer) (x : W) : List Graph → Bool
-  | [] => false
-  | c :: _ =>
-    match objects h ob x with
-    | .error _ => true
-    | .ok [] => false
-    | .ok (y :: _) => firstFail h c y
-end
-
 end TraitsVerif.Model.Obs
